@@ -404,6 +404,38 @@ def part_vis(res, level_mode, tier, rng):
         m.visualization.oscilloscope_size = 99
         res.counters["observation_visualization_write_through"] = int(int(m.visualization) != before)
         res.sample({"part": "visualization", "old_word": hex(vis_word(0, 1, 3, 255, 2, 1, 0)), "field": "oscilloscope_size", "new": 300, "expected_field": 255})
+    # the word as it lives ON A MODULE (never assigned before): read it, set one part, assign it back.  The module shows the
+    # new part and its old other parts; every other module - existing or created afterwards - keeps its own word, in
+    # memory and in the saved file.
+    import rv.api as api
+    import struct
+    for fname, pairs in new_values.items():
+        for new, want in pairs[:6]:
+            p = api.Project()
+            a = p.new_module(api.m.Amplifier)
+            b = p.new_module(api.m.Filter)
+            words0 = [int(x.visualization) for x in p.modules]
+            v = a.visualization
+            setattr(v, fname, new)
+            a.visualization = int(v)        # (the module keeps the packed word)
+            late = p.new_module(api.m.Reverb)
+            res.count("vis_module_level_edits")
+            res.case(("vis-on-module", level_mode, fname, int(new)))
+            got = fields(a.visualization)
+            exp = fields(Visualization(words0[1]))
+            exp[fname] = want
+            case = {"field": fname, "new": int(new), "where": "module"}
+            if got != exp:
+                res.violation(f"C12:vis-readback:{fname}", f"module word {words0[1]:#010x}: {fname}={new!r} via read/modify/assign reads {got}, expected {exp}", case)
+                break
+            others = [int(p.modules[0].visualization), int(b.visualization), int(late.visualization)]
+            if others != [words0[0], words0[2], int(api.m.Reverb().visualization)] or int(api.m.Amplifier().visualization) != words0[1]:
+                res.violation(f"C12:vis-clobbers-other-module:{fname}", f"setting {fname} on one module's word changed the word of other modules: {[hex(x) for x in others]} (were {[hex(x) for x in words0]})", case)
+                break
+            svpr = [struct.unpack("<I", c[1])[0] for c in iffparse.parse(p.read()) if c[0] == b"SVPR"]
+            if svpr != [int(x.visualization) for x in p.modules]:
+                res.violation(f"C12:vis-saved-word:{fname}", f"saved SVPR words {[hex(x) for x in svpr]} differ from the modules' words", case)
+                break
     res.exhaustive = True
 
 
